@@ -13,7 +13,9 @@ CONSTANTS
   Ranges = {20, 30}
   Offsets = {0}
   UseSTs = {TRUE, FALSE}
+  Steps = {0}
+  NSteps = 1
   BuildMode = FALSE
   EmitOn = TRUE
-INVARIANTS TypeOK ImplMatchesRef IncrementsLaw NonNegative IncreaseIsRateTimesRange NoResetIncreaseIsDelta FactorBounded CountsBounded OffsetLaw Emit
+INVARIANTS TypeOK ImplMatchesRef WindowReuse IncrementsLaw NonNegative IncreaseIsRateTimesRange NoResetIncreaseIsDelta FactorBounded CountsBounded OffsetLaw Emit
 CHECK_DEADLOCK FALSE
